@@ -743,6 +743,13 @@ pub struct WriteTxn<'a> {
 }
 
 impl<'a> WriteTxn<'a> {
+    /// Whether `external_id` already names a node of the database or one created earlier in
+    /// this transaction (such an id cannot be given to a new node).
+    pub fn external_id_in_use(&self, external_id: ExternalId) -> bool {
+        self.created_external_ids.contains(&external_id)
+            || self.engine.lookup_internal_id(external_id).is_some()
+    }
+
     pub fn create_node(
         &mut self,
         external_id: ExternalId,
